@@ -81,7 +81,8 @@ def check(col: Collector, tier: str):
         p = REPO / rel
         if not p.exists():
             raise AnalysisError(f"{rel} not found")
-        src = p.read_text()
+        from sa.core.shell_alpha import runner_source
+        src = runner_source(p)
         if re.search(r"\{\{|\{%|\{#", src):
             col.add("C16.R1", f"runner:{key}", "no-jinja-constructs", False,
                     "runner.sh is passed through jinja2: a '{{', '{%' or '{#' in it would be eaten at render time", rel)
@@ -220,9 +221,9 @@ def flag_table(col: Collector, con: str, rel: str, root: Node, cmds: List[Cmd]):
            and not any(g[0].startswith("getopts") for g in c.guards)]
     sh_ok = bool(top) and top[0].node.name == "shift" and top[0].node.args == ["$((OPTIND-1))"] and not top[0].guards
     col.add("C16.R3", con, "shift-after-options", sh_ok, "`shift $((OPTIND-1))` must follow the option loop", f"{rel}:{top[0].node.line if top else 0}")
-    stray = [c for c in top if c.node.name == "exit" and c.node.args == ["1"] and
-             any(re.sub(r"\s+", "", gt) in ("[$#!=0]", "[$#-ne0]", "[$#-gt0]") and tr for gt, tr in c.guards)]
-    col.add("C16.R3", con, "stray-arguments-exit-1", len(stray) == 1 and all(g[0].startswith("call ") or re.sub(r"\s+", "", g[0]) in ("[$#!=0]", "[$#-ne0]", "[$#-gt0]") for g in stray[0].guards),
+    any_left = ("$#!=0", "$#-ne0", "$#-gt0")          # (canon_test: [ ] / [[ ]] / test, quoting and blanks do not matter)
+    stray = [c for c in top if c.node.name == "exit" and c.node.args == ["1"] and any(canon_test(gt) in any_left and tr for gt, tr in c.guards)]
+    col.add("C16.R3", con, "stray-arguments-exit-1", len(stray) == 1 and all(g[0].startswith("call ") or canon_test(g[0]) in any_left for g in stray[0].guards),
             "remaining arguments after the options must `exit 1`", rel)
     return {k: tuple(v) for k, v in table.items()} | {"optstring": optstring}
 
